@@ -8,6 +8,7 @@ import (
 	"strconv"
 	"strings"
 
+	"github.com/douban/gobeansdb/config"
 	"github.com/douban/gobeansdb/store"
 	"github.com/douban/gobeansdb/vshim/vsched"
 )
@@ -146,74 +147,107 @@ func c15Run(nb int, pat routePattern, keys map[int][]string, s *vsched.Sched) *M
 			}
 		}
 	}
-	// listings at and above bucket level, while the store is running
-	var roots = map[int][2]int{} // bucket -> (hash, count) recomputed from the bucket's own child listing
-	for b := 0; b < nb; b++ {
-		if !served[b] {
-			continue
-		}
-		p := ""
-		if depth > 0 {
-			p = fmt.Sprintf("%0*x", depth, b)
-		}
-		l := parseListing(m.Cmd("get @" + p + "\r\n"))
-		switch {
-		case live[b] == 0:
-			if !(l.kind == "items" && len(l.lines) == 0) && l.kind != "none" {
-				return &Mismatch{Op: desc, Where: "@" + p, Want: "empty bucket listing", Got: l.raw, Class: "route-listing"}
-			}
-			roots[b] = [2]int{0, 0}
-		case l.kind != "nodes":
-			return &Mismatch{Op: desc, Where: "@" + p, Want: "node listing", Got: l.raw, Class: "route-listing"}
-		default:
-			h, c := 0, 0
-			for _, ln := range l.lines {
-				f := strings.Split(ln, " ")
-				hv, _ := strconv.Atoi(f[1])
-				cv, _ := strconv.Atoi(f[2])
-				h = (h + hv) & 0xffff
-				c += cv
-			}
-			if c != live[b] {
-				return &Mismatch{Op: desc, Where: "@" + p, Want: fmt.Sprintf("%d live keys", live[b]), Got: l.raw, Class: "route-listing-count"}
-			}
-			roots[b] = [2]int{h, c}
-		}
+	everServed := map[int]bool{}
+	for b := range served {
+		everServed[b] = true
 	}
-	if depth > 0 {
-		// upper levels: prefix lengths 0..depth-1
-		var check func(prefix string) (int, int, *Mismatch)
-		check = func(prefix string) (int, int, *Mismatch) {
-			l := parseListing(m.Cmd("get @" + prefix + "\r\n"))
-			if l.kind != "nodes" || len(l.lines) != 16 {
-				return 0, 0, &Mismatch{Op: desc, Where: "@" + prefix, Want: "16 child nodes", Got: l.raw, Class: "route-upper-listing"}
+	// listings at and above bucket level, while the store is running
+	checkListings := func(desc string) *Mismatch {
+		var roots = map[int][2]int{} // bucket -> (hash, count) recomputed from the bucket's own child listing
+		for b := 0; b < nb; b++ {
+			if !served[b] {
+				continue
 			}
-			agg, cnt := 0, 0
-			for i, ln := range l.lines {
-				f := strings.Split(ln, " ")
-				hv, _ := strconv.Atoi(f[1])
-				cv, _ := strconv.Atoi(f[2])
-				var wh, wc int
-				cp := prefix + fmt.Sprintf("%x", i)
-				if len(cp) == depth {
-					b, _ := strconv.ParseInt(cp, 16, 0)
-					wh, wc = roots[int(b)][0], roots[int(b)][1]
-				} else {
-					var mm *Mismatch
-					wh, wc, mm = check(cp)
-					if mm != nil {
-						return 0, 0, mm
-					}
-				}
-				if hv != wh || cv != wc {
-					return 0, 0, &Mismatch{Op: desc, Where: "@" + prefix, Want: fmt.Sprintf("child %x = aggregate of served roots below: hash %d count %d", i, wh, wc), Got: ln, Class: "route-upper-aggregate"}
-				}
-				agg = (agg*97 + hv) & 0xffff
-				cnt += cv
+			p := ""
+			if depth > 0 {
+				p = fmt.Sprintf("%0*x", depth, b)
 			}
-			return agg, cnt, nil
+			l := parseListing(m.Cmd("get @" + p + "\r\n"))
+			switch {
+			case live[b] == 0:
+				if !(l.kind == "items" && len(l.lines) == 0) && l.kind != "none" {
+					return &Mismatch{Op: desc, Where: "@" + p, Want: "empty bucket listing", Got: l.raw, Class: "route-listing"}
+				}
+				roots[b] = [2]int{0, 0}
+			case l.kind != "nodes":
+				return &Mismatch{Op: desc, Where: "@" + p, Want: "node listing", Got: l.raw, Class: "route-listing"}
+			default:
+				h, c := 0, 0
+				for _, ln := range l.lines {
+					f := strings.Split(ln, " ")
+					hv, _ := strconv.Atoi(f[1])
+					cv, _ := strconv.Atoi(f[2])
+					h = (h + hv) & 0xffff
+					c += cv
+				}
+				if c != live[b] {
+					return &Mismatch{Op: desc, Where: "@" + p, Want: fmt.Sprintf("%d live keys", live[b]), Got: l.raw, Class: "route-listing-count"}
+				}
+				roots[b] = [2]int{h, c}
+			}
 		}
-		if _, _, mm := check(""); mm != nil {
+		if depth > 0 {
+			// upper levels: prefix lengths 0..depth-1
+			var check func(prefix string) (int, int, *Mismatch)
+			check = func(prefix string) (int, int, *Mismatch) {
+				l := parseListing(m.Cmd("get @" + prefix + "\r\n"))
+				if l.kind != "nodes" || len(l.lines) != 16 {
+					return 0, 0, &Mismatch{Op: desc, Where: "@" + prefix, Want: "16 child nodes", Got: l.raw, Class: "route-upper-listing"}
+				}
+				agg, cnt := 0, 0
+				for i, ln := range l.lines {
+					f := strings.Split(ln, " ")
+					hv, _ := strconv.Atoi(f[1])
+					cv, _ := strconv.Atoi(f[2])
+					var wh, wc int
+					cp := prefix + fmt.Sprintf("%x", i)
+					if len(cp) == depth {
+						b, _ := strconv.ParseInt(cp, 16, 0)
+						wh, wc = roots[int(b)][0], roots[int(b)][1]
+					} else {
+						var mm *Mismatch
+						wh, wc, mm = check(cp)
+						if mm != nil {
+							return 0, 0, mm
+						}
+					}
+					if hv != wh || cv != wc {
+						return 0, 0, &Mismatch{Op: desc, Where: "@" + prefix, Want: fmt.Sprintf("child %x = aggregate of served roots below: hash %d count %d", i, wh, wc), Got: ln, Class: "route-upper-aggregate"}
+					}
+					agg = (agg*97 + hv) & 0xffff
+					cnt += cv
+				}
+				return agg, cnt, nil
+			}
+			if _, _, mm := check(""); mm != nil {
+				return mm
+			}
+		}
+		return nil
+	}
+	if mm := checkListings(desc); mm != nil {
+		return mm
+	}
+	// hot route change: stop serving one served bucket, then everything above bucket level must forget it
+	if len(pat.served) >= 2 && (nb == 16 || len(pat.served) <= 4) {
+		victim := pat.served[0]
+		nc := config.DBRouteConfig{NumBucket: nb, BucketsStat: make([]int, nb)}
+		for b := range served {
+			if b != victim {
+				nc.BucketsStat[b] = 1
+			}
+		}
+		_, unloaded, err := m.St.ChangeRoute(nc)
+		d2 := desc + fmt.Sprintf(" then unload %x", victim)
+		if err != nil || len(unloaded) != 1 {
+			return &Mismatch{Op: d2, Where: "ChangeRoute", Want: "one bucket unloaded", Got: fmt.Sprint(unloaded, err), Class: "route-change"}
+		}
+		delete(served, victim)
+		if g := m.Cmd("get " + keys[victim][0] + "\r\n"); g != "END\r\n" {
+			return &Mismatch{Op: d2, Where: "get after unload", Want: "miss", Got: g, Class: "route-unserved-not-miss"}
+		}
+		if mm := checkListings(d2); mm != nil {
+			mm.Class += "-after-unload"
 			return mm
 		}
 	}
@@ -223,7 +257,7 @@ func c15Run(nb int, pat routePattern, keys map[int][]string, s *vsched.Sched) *M
 	m.St.Close()
 	allowed := map[string]int{}
 	for b := 0; b < nb; b++ {
-		if served[b] {
+		if everServed[b] {
 			d := "/db"
 			if bd := bucketDir(nb, b); bd != "" {
 				d += "/" + bd
@@ -259,7 +293,7 @@ func c15Run(nb int, pat routePattern, keys map[int][]string, s *vsched.Sched) *M
 
 func C15(job *Job, r *Report) {
 	r.Level = "exploration"
-	r.Rule = "bounded-exhaustive configuration grid: bucket counts 1, 16, 256; served patterns none, all, each single bucket, the complement of a single bucket (every one for 16; quick: every 17th for 256), every non-empty proper subset of the corner buckets {0,1,e,f} / {00,0f,f0,ff}; per pattern, for every bucket id two keys found by search under the REAL key hash: set+get of one, incr+delete of the other through the memcached protocol; served => stored and readable, unserved => miss / 0 / NOT_FOUND; listing of every served bucket recomputed from its children (count = live keys), every upper-level listing line = aggregate of the served roots below (folded as the code folds); after shutdown the memfs inventory must contain files only under directories of served buckets and an independent scan of every data file must find only keys whose hash leads to that bucket; distinct_nontrivial = patterns with at least one served and one unserved bucket"
+	r.Rule = "bounded-exhaustive configuration grid: bucket counts 1, 16, 256; served patterns none, all, each single bucket, the complement of a single bucket (every one for 16; quick: every 17th for 256), every non-empty proper subset of the corner buckets {0,1,e,f} / {00,0f,f0,ff}; per pattern, for every bucket id two keys found by search under the REAL key hash: set+get of one, incr+delete of the other through the memcached protocol; served => stored and readable, unserved => miss / 0 / NOT_FOUND; listing of every served bucket recomputed from its children (count = live keys), every upper-level listing line = aggregate of the served roots below (folded as the code folds); for patterns with at least two served buckets one of them is then hot-unloaded through HStore.ChangeRoute and the listings are checked again against the remaining served roots; after shutdown the memfs inventory must contain files only under directories of served buckets and an independent scan of every data file must find only keys whose hash leads to that bucket; distinct_nontrivial = patterns with at least one served and one unserved bucket"
 	r.Assumptions = []string{"the fold used above bucket level (hash*97 + child, counts summed) is taken from the implementation", "tree height 2, one data file per bucket"}
 	unit := 0
 	for _, nb := range []int{1, 16, 256} {
